@@ -1,25 +1,8 @@
 (* C05 - proofs about the writer model *)
-Require Import V.Lib.Base V.Lib.Calls V.Lib.Dec V.C09.Spec V.Gen.Consts V.Gen.Consts_C07 V.C07.Model V.C07.Spec V.C07.ProofsLex V.C07.ProofsGram V.C05.Model.
+Require Import V.Lib.Base V.Lib.Calls V.Lib.Dec V.C09.Spec V.Gen.Consts V.Gen.Consts_C07 V.C07.Model V.C07.Spec V.C07.ProofsLex V.C07.ProofsGram V.C05.Model V.C05.Spec.
 Require Import Permutation.
 Local Open Scope Z_scope.
 Ltac Zify.zify_post_hook ::= Z.div_mod_to_equations.
-
-(* ---- what the writer documents as refused (independent of sm_step) ---- *)
-Definition single_pos (cond : list Z) : bool := match cond with [a] => 0 <? a | _ => false end.
-Definition refused (s : wstate) (c : call) : bool :=
-  match c with
-  | CInit inc => inc && negb (w_ext s)                                   (* incremental programs need the extensions *)
-  | CBegin | CEnd | CMin _ _ => false
-  | CRule ht h b => negb (w_sec s =? 0)                                   (* rules after symbols *)
-                    || (isnil h && negb (ht =? Head_t_Choice) && (w_false s =? 0))   (* integrity constraint without false atom *)
-  | CWRule ht h bnd b => negb (w_sec s =? 0) || (isnil h && (w_false s =? 0))
-                         || (ht =? Head_t_Choice) || (1 <? Z.of_nat (length h))       (* sum body only with a single normal head *)
-                         || (bnd <? 0)
-  | COutput _ cond => negb (w_sec s <=? 1) || negb (single_pos cond)     (* symbols after compute; general conditions *)
-  | CExternal _ _ => negb (w_ext s)
-  | CAssume _ => negb (w_sec s <? 2)                                      (* one compute statement per step *)
-  | _ => true                                                            (* project, heuristic, edge, theory *)
-  end.
 
 Ltac both_err := split; intros _; reflexivity.
 Ltac both_ok := split; intros Hx; discriminate Hx.
@@ -71,9 +54,7 @@ Proof.
   - now constructor.
   - apply Permutation_sym. apply Permutation_cons_app. now apply Permutation_sym.
 Qed.
-Definition norm_body (b : list Z) : list Z := negs (fun x => x) b ++ poss (fun x => x) b.
 Lemma norm_body_perm b : Permutation (norm_body b) b.
 Proof. apply partition_perm. Qed.
-Definition norm_wbody (b : list (Z * Z)) : list (Z * Z) := negs fst b ++ poss fst b.
 Lemma norm_wbody_perm b : Permutation (norm_wbody b) b.
 Proof. apply partition_perm. Qed.
